@@ -37,6 +37,7 @@ VNB(b) == [k |-> "npbool", v |-> b]
 VI(i) == [k |-> "int", v |-> i]
 VF(n, d) == [k |-> "float", v |-> <<n, d>>]
 VS(cs) == [k |-> "str", v |-> cs]
+VTx(t) == [k |-> "text", v |-> t]            \* a string compared as a whole (results of dtype_str / dtype_repr)
 VL(xs) == [k |-> "list", v |-> xs]
 VT(xs) == [k |-> "tuple", v |-> xs]
 VA0(x) == [k |-> "arr0", v |-> x]
@@ -295,11 +296,11 @@ DtypeAllowed(fn, b, shp, dflt) ==
          ELSE ANY                                               \* float16, integers, bool: not documented
     [] fn = "dtype_str" ->
          IF shp # <<>> \/ b \in OtherBases \cup VagueBases THEN ANY
-         ELSE {Ok(VS(CASE b = "int64" -> "int" [] b = "float64" -> "float" [] b = "complex128" -> "complex"
-                       [] OTHER -> b))}
+         ELSE {Ok(VTx(CASE b = "int64" -> "int" [] b = "float64" -> "float" [] b = "complex128" -> "complex"
+                        [] OTHER -> b))}
     [] fn = "dtype_repr" ->
          IF shp # <<>> \/ b \in OtherBases \cup VagueBases THEN ANY
-         ELSE {Ok(VS("'" \o (CASE b = "int64" -> "int" [] b = "float64" -> "float" [] b = "complex128" -> "complex"
+         ELSE {Ok(VTx("'" \o (CASE b = "int64" -> "int" [] b = "float64" -> "float" [] b = "complex128" -> "complex"
                                [] OTHER -> b) \o "'"))}
 
 (* ============================== unique ================================= *)
@@ -351,14 +352,23 @@ PlainText(lines, ind) ==
 (* and ... in the middle (per axis)."  Integer arrays of one or two axes;  *)
 (* the result is compared as a nested token list, -1 standing for "...".   *)
 DOTS == -1
-SummAxis(s, nprint) ==
-  IF Len(s) <= nprint THEN s
-  ELSE SubSeq(s, 1, nprint \div 2) \o <<DOTS>> \o SubSeq(s, Len(s) - (nprint \div 2) + 1, Len(s))
-ArrayStr1(row, nprint) == SummAxis(row, nprint)
-ArrayStr2(rows, nprint) ==
-  LET rr == [i \in 1..Len(rows) |-> SummAxis(rows[i], nprint)]
-      picked == SummAxis([i \in 1..Len(rows) |-> i], nprint)
-  IN  [t \in 1..Len(picked) |-> IF picked[t] = DOTS THEN <<DOTS>> ELSE rr[picked[t]]]
+\* acceptable renderings of one axis: "Maximum number of elements to print per axis. For larger arrays, a summary is
+\* printed, with nprint // 2 elements on each side and ... in the middle (per axis)".  An axis of a larger array whose
+\* length is above 2 * (nprint // 2) but not above nprint (odd nprint) may be printed fully or summarised.
+SummOpts(s, nprint, larger) ==
+  LET e == nprint \div 2
+      summ == SubSeq(s, 1, e) \o <<DOTS>> \o SubSeq(s, Len(s) - e + 1, Len(s))
+  IN  IF ~larger \/ Len(s) <= 2 * e THEN {s} ELSE IF Len(s) <= nprint THEN {s, summ} ELSE {summ}
+ArrayStr1Set(row, nprint) == SummOpts(row, nprint, Len(row) > nprint)
+ArrayStr2Set(rows, nprint) ==
+  LET r == Len(rows)
+      c == Len(rows[1])
+      larger == r > nprint \/ c > nprint
+      e == nprint \div 2
+      modes == IF ~larger \/ c <= 2 * e THEN {"full"} ELSE IF c <= nprint THEN {"full", "summ"} ELSE {"summ"}
+      Row(i, md) == IF md = "full" THEN rows[i] ELSE SubSeq(rows[i], 1, e) \o <<DOTS>> \o SubSeq(rows[i], c - e + 1, c)
+  IN  {[t \in 1..Len(p) |-> IF p[t] = DOTS THEN <<DOTS>> ELSE Row(p[t], md)] :
+         p \in SummOpts([i \in 1..r |-> i], nprint, larger), md \in modes}
 
 (* =========================== apply_on_boundary ========================= *)
 (* array: shape + row-major flat values (integers); func per axis a pair   *)
@@ -389,11 +399,18 @@ AobRef(shape, vals, funcs, which, order, once) ==
 IsPerm(order, nd) == Len(order) = nd /\ {order[i] : i \in 1..Len(order)} = 1..nd
 \* lengths: "It must have length array.ndim" (func sequence), "The length of the sequence must be array.ndim"
 \* (which_boundaries), "Permutation of range(array.ndim)" (axis_order)
+\* Which entry of a func / which_boundaries SEQUENCE belongs to which axis when axis_order is not the identity is
+\* ambiguous: "applied per axis separately" (entry a <-> axis a) - but the repository's own unit test
+\* test_apply_on_boundary_axis_order_2d pairs entry t with the t-th PROCESSED axis.  Both pairings are accepted
+\* (the same one for func and which_boundaries).
+ByPosition(x, order) == [ax \in 1..Len(order) |-> x[CHOOSE t \in 1..Len(order) : order[t] = ax]]
 AobAllowed(shape, vals, funcs, which, order, once) ==
-  LET nd == Len(shape) IN
+  LET nd == Len(shape)
+      Res(v) == Ok(VL([t \in 1..Len(vals) |-> VI(v[t])])) IN
   IF Len(funcs) # nd \/ Len(which) # nd \/ Len(order) # nd THEN {Err("*")}
   ELSE IF ~IsPerm(order, nd) THEN ANY
-  ELSE {Ok(VL([t \in 1..Len(vals) |-> VI(AobRef(shape, vals, funcs, which, order, once)[t])]))}
+  ELSE {Res(AobRef(shape, vals, funcs, which, order, once)),
+        Res(AobRef(shape, vals, ByPosition(funcs, order), ByPosition(which, order), order, once))}
 
 (* ========================= fast_1d_tensor_mult ========================= *)
 (* "multiplication of an n-dimensional array with an outer product of      *)
@@ -414,6 +431,55 @@ F1dAllowed(shape, vals, vecs, axes0) ==          \* axes0: <<NONE>> for None, el
       ELSE {Ok(VL([t \in 1..Len(vals) |->
                      VI(vals[t] * ProdOver(t - 1, shape, vecs, [u \in 1..Len(axn) |-> axn[u] + 1], 1))]))}
 
+(* ============== the branch of the documentation that applies =========== *)
+(* family name of a case: used in verdict signatures only                  *)
+IdxCell(ind, shape, i2s) ==
+  LET items == IdxItems(ind)  nd == Len(shape)
+      sfx == IF i2s = 1 THEN "/int-to-slice" ELSE "" IN
+  IF ~IdxDocumented(items) \/ CountEll(items) > 1 THEN "undocumented"
+  ELSE IF Len(items) - CountEll(items) > nd THEN "too-many-indices"
+  ELSE LET ex == IdxExpand(items, nd) IN
+       IF \E ax \in 1..nd : ex[ax].k = "int" /\ ex[ax].v < -shape[ax] THEN "int-below-range" \o sfx
+       ELSE IF \E ax \in 1..nd : ex[ax].k = "int" /\ ex[ax].v >= shape[ax] THEN "int-above-range" \o sfx
+       ELSE IF \E ax \in 1..nd : ex[ax].k = "slice" /\ (SliceIdx(ex[ax].v, shape[ax]) = <<>> \/ ex[ax].v[1] = shape[ax])
+         THEN "empty-or-end-slice"
+       ELSE (IF CountEll(items) = 1 THEN "ellipsis" ELSE IF ind.k = "list" THEN "sequence" ELSE "single") \o sfx
+Cell(fn, a) ==
+  CASE fn = "axes" ->
+         IF AxesAllowed(a.axes, a.ndim) = ANY THEN "undocumented"
+         ELSE LET s == IF a.axes.k = "int" THEN <<a.axes.v>> ELSE [i \in 1..Len(a.axes.v) |-> a.axes.v[i].v]  nd == a.ndim.v IN
+              IF nd <= 0 THEN "ndim-not-positive"
+              ELSE IF \E i \in 1..Len(s) : s[i] < -nd \/ s[i] > nd - 1 THEN "out-of-range"
+              ELSE IF HasDup(s) THEN "duplicate"
+              ELSE IF HasDup([i \in 1..Len(s) |-> AxN(s[i], nd)]) THEN "duplicate-after-conversion"
+              ELSE IF a.axes.k = "int" THEN "single" ELSE "sequence"
+    [] fn = "index" -> IdxCell(a.ind, a.shape, a.i2s)
+    [] fn = "nob" ->
+         IF NobAllowed(a.nob, a.length) = ANY THEN "undocumented"
+         ELSE IF a.nob.k = "bool" THEN "global"
+         ELSE IF Len(a.nob.v) = a.length.v
+           THEN (IF \A i \in 1..Len(a.nob.v) : NobItemValid(a.nob.v[i]) THEN "per-axis" ELSE "entry-length")
+         ELSE IF a.length.v = 1 /\ Len(a.nob.v) = 2 /\ IsBoolish(a.nob.v[1]) /\ IsBoolish(a.nob.v[2]) THEN "flat-one-axis"
+         ELSE "wrong-length"
+    [] fn = "spl" ->
+         IF a.length.k # "int" THEN "undocumented"
+         ELSE IF a.length.v < 0 THEN "negative-length"
+         ELSE IF SplAllowed(a.param, a.length, a.conv, a.keep, a.ret) = ANY THEN "undocumented"
+         ELSE (IF ~IsPySeq(a.param) THEN "single"
+               ELSE IF Len(a.param.v) = a.length.v /\ a.length.v = 1 THEN "one-entry"
+               ELSE IF Len(a.param.v) = a.length.v THEN (IF a.param.k = "str" THEN "string-as-sequence" ELSE "sequence")
+               ELSE "string-single")
+              \o (IF a.conv = "none" THEN "" ELSE "/conv") \o (IF a.ret = 1 THEN "/nonconv" ELSE "")
+    [] fn = "sic" -> a.x.k
+    [] fn = "dtype" -> a.f
+    [] fn = "aob" ->
+         IF Len(a.funcs) # Len(a.shape) \/ Len(a.which) # Len(a.shape) \/ Len(a.order) # Len(a.shape) THEN "wrong-length"
+         ELSE (IF a.once = 1 THEN "once" ELSE "repeated")
+              \o (IF \E ax \in 1..Len(a.shape) : a.shape[ax] = 1 THEN "/size-1-axis" ELSE "")
+              \o (IF a.order # [i \in 1..Len(a.order) |-> i] THEN "/reordered" ELSE "")
+    [] fn = "f1d" -> IF \E o \in F1dAllowed(a.shape, a.vals, a.vecs, a.axes) : o.k = "ok" THEN "product" ELSE "rejected"
+    [] OTHER -> fn
+
 (* =============================== dispatcher ============================ *)
 (* a case is [fn, a] with a record of arguments that depends on fn         *)
 Allowed(fn, a) ==
@@ -424,13 +490,17 @@ Allowed(fn, a) ==
     [] fn = "sic"   -> SafeIntAllowed(a.x)
     [] fn = "dtype" -> DtypeAllowed(a.f, a.base, a.shape, a.dflt)
     [] fn = "unique" -> UniqueAllowed(a.seq)
-    [] fn = "indent" -> {Ok(VL([i \in 1..Len(a.lines) |-> VS(IndentRef(a.lines, a.ind)[i])]))}
+    [] fn = "indent" -> IF Len(a.lines) >= 1 /\ a.lines[Len(a.lines)] # <<>>            \* a trailing newline: silent
+                          THEN {Ok(VL([i \in 1..Len(a.lines) |-> VS(IndentRef(a.lines, a.ind)[i])]))}
+                          ELSE ANY
     [] fn = "dedent" -> IF PlainText(a.lines, a.ind)
                           THEN {Ok(VL([i \in 1..Len(a.lines) |-> VS(DedentRef(a.lines, a.ind, a.maxlv)[i])]))}
                           ELSE ANY
-    [] fn = "arrstr1" -> {Ok(VL([i \in 1..Len(ArrayStr1(a.row, a.nprint)) |-> VI(ArrayStr1(a.row, a.nprint)[i])]))}
-    [] fn = "arrstr2" -> LET r == ArrayStr2(a.rows, a.nprint)
-                         IN  {Ok(VL([i \in 1..Len(r) |-> VL([j \in 1..Len(r[i]) |-> VI(r[i][j])])]))}
+    [] fn = "arrstr1" -> IF a.nprint < 2 THEN ANY
+                         ELSE {Ok(VL([i \in 1..Len(r) |-> VI(r[i])])) : r \in ArrayStr1Set(a.row, a.nprint)}
+    [] fn = "arrstr2" -> IF a.nprint < 2 THEN ANY
+                         ELSE {Ok(VL([i \in 1..Len(r) |-> VL([j \in 1..Len(r[i]) |-> VI(r[i][j])])])) :
+                                 r \in ArrayStr2Set(a.rows, a.nprint)}
     [] fn = "aob"   -> AobAllowed(a.shape, a.vals, a.funcs, a.which, a.order, a.once)
     [] fn = "f1d"   -> F1dAllowed(a.shape, a.vals, a.vecs, a.axes)
 MatchesCase(fn, a, obs) ==
